@@ -262,6 +262,11 @@ def cases_rows(tier):
     for omf, cmf in (([0, 1], [1]), ([1, 0], [-1]), ([-1, 0], [0]), ([0, -1], None)):
         for both in (True, False):
             yield "flt=%s,%s/%s" % (omf, cmf, "functions+gradients" if both else "gradients-after-functions"), {"omf": omf, "cmf": cmf, "both": both}
+    # a filter that drops a realization for every objective, the constraint unfiltered, and an evaluator that fills only the entries
+    # flagged as needed (anything - here a symbolic garbage value - elsewhere): the constraint still needs every realization
+    for both in (True, False):
+        yield "flt=[0, 0],None/objective-filter-drops-a-realization/evaluator-honours-the-activity-flags/%s" % ("functions+gradients" if both else "gradients-after-functions"), {
+            "omf": [0, 0], "cmf": None, "both": both, "drop": True}
 
 
 def scn_rows(T, case):
@@ -278,8 +283,18 @@ def scn_rows(T, case):
     inv = H.InvertContract(T, ghosts) if T.symbolic else None
     ch = H.Chain(T, stubs={(MG, "_invert_linear_equations"): inv} if T.symbolic else None)
 
+    garbage = T.real("garbage", (R, J + K))
+    if case.get("drop"):
+        W[0] = T.np.array([W[0][0], 0.0 * W[0][1]])
+
     def f(v, r, p, k, lo, hi):
-        return T.np.array([a[r, j, 0] * v[0] + c0[r, j] for j in range(lo, hi)])
+        vals = [a[r, j, 0] * v[0] + c0[r, j] for j in range(lo, hi)]
+        if case.get("drop"):
+            ctx = sev.calls[-1]["context"]
+            flags = ctx.active_objectives if lo == 0 else ctx.active_constraints
+            if flags is not None:
+                vals = [vals[j - lo] if bool(flags[j - lo, r]) else garbage[r, j] for j in range(lo, hi)]
+        return T.np.array(vals)
 
     sev = H.ScriptedEvaluator(T, ch, lambda v, r, p, k: f(v, r, p, k, 0, J), lambda v, r, p, k: f(v, r, p, k, J, J + K))
     cfg = H.make_config(T, R, J, K, N, weights=cfgw, ow=ow, P=P, min_success=1, pert_min_success=1, magnitudes=T.const(np.ones(N)),
@@ -298,6 +313,8 @@ def scn_rows(T, case):
             fidx = -1 if fmap is None else fmap[jj]
             w = W[fidx] if fidx >= 0 else cfgw
             tot = w[0] + w[1]
+            if not T.symbolic and case.get("drop"):
+                tot = float(w[0]) + float(w[1])
             want = T.total([(w[r] / tot) * a[r, off + jj, 0] for r in range(R)])
             T.prove("C02.rows.%s_gradient_uses_the_weights_in_force_for_that_function" % kind, T.close(grads[jj, 0], want, 1e-7) if not T.symbolic else T.same(grads[jj, 0], want))
 
@@ -377,11 +394,25 @@ def scn_svd_body(T, case):
         T.prove("C02.svd_body.result_satisfies_the_normal_equations", T.all([T.same(T.total([MtM[a][b] * got[b] for b in range(n)]), Mtv[a]) for a in range(n)]))
 
 
+# ------------------------------------------------------------------------------------ user-domain results (shared contract)
+def cases_user_results(tier):
+    from contracts import backtransform
+
+    return backtransform.cases(tier)
+
+
+def scn_user_results(T, case):
+    from contracts import backtransform
+
+    backtransform.scenario(T, case, "C02")
+
+
 SCENARIOS = [
     Scenario("gradient_affine", scn_gradient, cases_gradient, {"quick": 10, "thorough": 60}),
     Scenario("gradient_weight_rows", scn_rows, cases_rows, {"quick": 10, "thorough": 60}),
     Scenario("svd_solve_bounded", scn_svd, cases_svd, {"quick": 30, "thorough": 300}),
     Scenario("svd_solve_body_by_library_contract", scn_svd_body, cases_svd_body, {"quick": 10, "thorough": 100}),
+    Scenario("user_domain_results", scn_user_results, cases_user_results, {"quick": 3, "thorough": 20}),
 ]
 
 MANIFEST = {
